@@ -111,6 +111,23 @@ theorem inline_copies_first : Purity.copyBeforeMutate Generated.Writes.inlineEve
     every Builder, Scope, Graph, Node of the process — and carry state from one build to the next. -/
 theorem no_class_level_mutable_state : Generated.Writes.classMutables = [] := by decide
 
+/-- No function or class of the hand-written modules carries a memoising decorator (`lru_cache`,
+    `cache`, `cached_property` … keep results between builds without any write site): every decorator
+    in the tree is one of the stateless ones (`property`, `classmethod`, `contextmanager`, `dataclass` …). -/
+theorem no_memoising_decorators : Purity.decoratorsOk Generated.Writes.decorators = true := by decide
+
+/-- Every module-level container is a `TypeVar`, an `__all__` list, or one of the tables `_schemas.py`
+    computes at import time — and no statement writes into those: there is no module-level cache
+    (dict / `WeakKeyDictionary` keyed by node, name, opsets …) that a later build could read. -/
+theorem no_module_level_caches :
+    Purity.moduleMutablesOk Generated.Writes.moduleMutables = true ∧
+    Purity.importTablesReadOnly Generated.Writes.sites = true := by decide
+
+/-- `__dict__` / `vars()` — the way to attach state to a node without an attribute assignment — is
+    used only by the field enumeration in `_fields.py`; a mutator call through it
+    (`node.__dict__.setdefault(…)`) would in addition be a `mutate-attr` site rejected by `writes_allowed`. -/
+theorem dict_backdoor_unused : Purity.dictAccessOk Generated.Writes.dictAccess = true := by decide
+
 /-! ## Memoised build results (`Graph._build_result`) -/
 
 /-- **cache_transparent.** For any sequence of reads (`_get_build_result`) and setter calls on a
